@@ -19,7 +19,8 @@ COMPLEX = ["C_FLOAT_COMPLEX", "C_DOUBLE_COMPLEX", "C_LONG_DOUBLE_COMPLEX", "CXX_
 MULTI = {"AINT": 1, "OFFSET": 1, "COUNT": 1}
 CHARS = {"CHAR": 1, "WCHAR": 1}          # "printable characters": not in the table of any operator
 PAIRS = {"FLOAT_INT": ("f4", "i4"), "DOUBLE_INT": ("f8", "i4"), "LONG_INT": ("i8", "i4"), "SHORT_INT": ("i2", "i4"), "2INT": ("i4", "i4"),
-         "LONG_DOUBLE_INT": ("f16", "i4"), "2REAL": ("f4", "f4"), "2DOUBLE_PRECISION": ("f8", "f8")}
+         "LONG_DOUBLE_INT": ("f16", "i4"), "2REAL": ("f4", "f4"), "2DOUBLE_PRECISION": ("f8", "f8"),
+         "2LONG": ("i8", "i8")}          # MPI_2LONG: SMPI's own pair type (flagged for MINLOC/MAXLOC like the standard ones)
 
 FAMILY = {}
 for _n in C_INT:
@@ -308,6 +309,22 @@ float_atoms = st.one_of(st.sampled_from(FLOAT_EXT), st.integers(-3, 3).map(float
 safe_floats = st.sampled_from([0.0, 1.0, -1.0, 2.0, -2.0, 3.0, 0.5, -0.5, 4.0, -3.0])
 
 
+def index_strategy(sc):
+    """index component of a pair type: the FULL range of its C type with boundary bias; for 64-bit indices also values whose low
+    32 bits (as a signed int) order differently from the full value"""
+    if sc.kind == "f":
+        return st.one_of(st.integers(0, 5).map(float), st.sampled_from([-1.0, 0.5, 16777216.0, 16777217.0, 4294967296.0, 1e30, -1e30]),
+                         st.floats(allow_nan=False, allow_infinity=False, width=32))
+    lo, hi = sc.lo(), sc.hi()
+    bnd = [0, 1, -1, 2, lo, hi, lo + 1, hi - 1, 2 ** 15, 2 ** 16, -2 ** 15 - 1]
+    if sc.size >= 8:
+        bnd += [2 ** 31 - 1, 2 ** 31, 2 ** 31 + 1, -2 ** 31, -2 ** 31 - 1, 2 ** 32 - 1, 2 ** 32, 2 ** 32 + 1, 2 ** 32 + 7, 2 ** 33 - 2, -2 ** 32, -2 ** 32 + 3,
+                0x180000001, 0x7fffffff00000000, 0x100000000 * 5 + 2, -0x100000000 * 3 - 1]
+    bnd = [x for x in bnd if lo <= x <= hi]
+    return st.one_of(st.integers(-2, 7), st.sampled_from(bnd), st.integers(lo, hi),
+                     st.tuples(st.integers(-3, 3), st.integers(-4, 9)).map(lambda hl: max(lo, min(hi, (hl[0] << 32) + hl[1])) if sc.size >= 8 else hl[1]))
+
+
 def elem_strategy(td, safe):
     def scalar(sc):
         if sc.kind in "iu":
@@ -322,8 +339,7 @@ def elem_strategy(td, safe):
             v = st.one_of(st.sampled_from([0.0, -0.0, 1.0, float("inf"), float("-inf")]), v)
         else:
             v = st.one_of(st.integers(-1, 1), v)
-        idx = st.integers(-2, 5) if td.fields[1][1].kind != "f" else st.integers(0, 5).map(float)
-        return st.tuples(v, idx).map(list)
+        return st.tuples(v, index_strategy(td.fields[1][1])).map(list)
     if td.fam == "complex":
         return st.tuples(scalar(td.fields[0][1]), scalar(td.fields[1][1])).map(list)
     return scalar(td.fields[0][1])
@@ -335,7 +351,7 @@ TYPE_NAMES = sorted(FAMILY)
 @st.composite
 def tests(draw, np_):
     tds = types()
-    name = draw(st.sampled_from([n for n in TYPE_NAMES if n in tds]))
+    name = draw(st.sampled_from([n for n in TYPE_NAMES if n in tds] + [n for n in PAIRS if n in tds]))        # pair types twice
     td = tds[name]
     want = draw(st.integers(0, 9))
     cands = [o for o in OPS if status_of(o, td.fam) == "table"] if want < 8 else OPS
@@ -360,6 +376,12 @@ def tests(draw, np_):
             vecs.append(list(vecs[0]))
         else:
             vecs.append(draw(st.lists(es, min_size=count, max_size=count)))
+    if td.fam == "pair" and count and draw(st.integers(0, 9)) < 8:
+        # MINLOC/MAXLOC are decided by the index only when the values tie: equal values across the contributors, different indices
+        for e in range(count):
+            for k in range(1, nvec):
+                if draw(st.integers(0, 9)) < 6:
+                    vecs[k][e] = [vecs[0][e][0], vecs[k][e][1]]
     t = {"k": kind, "op": op, "type": name, "v": vecs}
     if kind == "all":
         t["inplace"] = draw(st.booleans())
@@ -421,7 +443,9 @@ class C31(core.Prop):
                     if kind == "all" and status_of(op, td.fam) != "table":
                         continue
                     if td.fam == "pair":
-                        vecs = [[[1, 3], [0, 1], [2, 2]], [[1, 1], [0, 2], [-1, 0]]]
+                        # ties on the value with indices at the boundaries of the index type (and beyond int32 for 64-bit indices)
+                        vecs = [[[1, 3], [0, 1], [2, 2], [5, 7], [5, 1], [-1, 2 ** 31], [4, -1], [0, 2 ** 63 - 1]],
+                                [[1, 1], [0, 2], [-1, 0], [5, 2 ** 32], [5, 2 ** 31], [-1, 2 ** 32 + 1], [4, 2 ** 32 - 1], [0, -2 ** 63]]]
                     elif td.fam == "complex":
                         vecs = [[[1, 2], [0, -1], [3, 0]], [[2, -1], [1, 1], [0, 0]]]
                     elif td.fam == "logical":
@@ -532,6 +556,26 @@ class C31(core.Prop):
                         oc.bad("wrong-result:%s:%s" % (t["op"] if td.fam in ("pair", "complex") else GROUP[t["op"]], t["type"]),
                                "%s element %d on rank %d: contributions %s -> %s, expected %s" % (what, e, r, fmt(xs), fmt(got[e]), fmt(exp)))
                         break
+            if td.fam == "pair" and status == "table" and count >= 1:
+                isc = td.fields[1][1]
+                for e in range(count):
+                    col = [v[e] for v in vals]
+                    tied = [(a, b) for x, a in enumerate(col) for b in col[x + 1:] if same(a[0], b[0])]
+                    if tied:
+                        oc.labels.append("pair:tie")
+                    if any(not same(a[1], b[1]) for a, b in tied):
+                        oc.labels.append("pair:tie-distinct-index")
+                    if isc.kind in "iu" and isc.size >= 8:
+                        if any(not -2 ** 31 <= c[1] < 2 ** 31 for c in col):
+                            oc.labels.append("pair:index-beyond-int32")
+
+                        def low32(x):
+                            x &= 0xffffffff
+                            return x - 2 ** 32 if x >= 2 ** 31 else x
+                        if any((a[1] < b[1]) != (low32(a[1]) < low32(b[1])) for a, b in tied if a[1] != b[1]):
+                            oc.labels.append("pair:tie-index-low32-orders-differently")
+                    if isc.kind in "iu" and any(c[1] in (isc.lo(), isc.hi()) for c in col):
+                        oc.labels.append("pair:index-at-type-bound")
             if status == "table" and count >= 2:
                 flat = [x for v in vals for e in v for x in (e if isinstance(e, list) else [e])]
                 tie = any(vals[0][e] == vals[k][e] if not isinstance(vals[0][e], list) else same(vals[0][e][0], vals[k][e][0])
@@ -545,6 +589,8 @@ class C31(core.Prop):
                     oc.nontrivial = True
             if count == 0:
                 oc.labels.append("count=0")
+        pl = sorted(set(l for l in oc.labels if l.startswith("pair:")))          # once per case
+        oc.labels = [l for l in oc.labels if not l.startswith("pair:")] + pl
         return oc
 
 
